@@ -23,4 +23,21 @@ for p in selftest/mutants/${PROP}-*.patch; do
     echo "SELFTEST-FAIL mutant not caught: $p (expected obligation matching '$want')"; echo "$out" | tail -5; fail=1
   fi
 done
+# the stored seeded changes of this property (produced by fresh sub-agents, confirmed by their demonstration): each must
+# make the check report some violation
+for d in seeded/${PROP}-*/; do
+  [ -f "$d/patch.diff" ] || continue
+  tmp=$(mktemp -d "${TMPDIR:-/tmp}/govc-seed-XXXXXX")
+  rsync -a --exclude .git /repo/ "$tmp/"
+  if ! (cd "$tmp" && patch -p1 -s < "/verif/$d/patch.diff"); then
+    echo "SELFTEST-SKIP $d does not apply to the current tree"; rm -rf "$tmp"; continue
+  fi
+  out=$(./bin/govc check -repo "$tmp" -prop "$PROP" -no-evidence -replays "$tmp/.replays" 2>&1)
+  rm -rf "$tmp"
+  if grep -q "^VIOLATION property=$PROP " <<<"$out"; then
+    echo "seeded change caught: $d ($(grep -m1 '^VIOLATION' <<<"$out" | sed 's/.*obligation=\([^ ]*\).*/\1/'))"
+  else
+    echo "SELFTEST-FAIL seeded change not caught: $d"; echo "$out" | tail -3; fail=1
+  fi
+done
 exit $fail
